@@ -28,6 +28,7 @@ struct Ctx {
 	std::size_t caseIndex = 0;
 	int worker = 0;
 	bool single = false;          // --case mode (replay)
+	bool replaying = false;       // isolated re-run of a case whose worker died: detailed sub labels wanted
 
 	void count(const char* name, uint64_t n = 1);
 	void state(uint64_t n = 1);
